@@ -477,6 +477,19 @@ func genG08(repo string, w *Out) error {
 		return fmt.Errorf("net.go: readHeaderContext does not close the connection and record the error when the deadline expires")
 	}
 	w.DefBool("t_timeout_bounds_header_read", true)
+	// how Listener.Accept derives the connection's header timeout from the listener's: verbatim (so that zero / unset stays
+	// "no limit", as documented for --proxy-protocol-read-header-timeout 0), or through anything else
+	pa, err := fn.NormFunc("Listener.Accept", g08Ref["proxyproto.Listener.Accept"])
+	if err != nil {
+		return err
+	}
+	pas := fn.Src(pa.Body)
+	tm := regexp.MustCompile(`pc := &Conn\{ ?Conn: c, readHeaderTimeout: ([^,}]+),? ?\}`).FindStringSubmatch(pas)
+	if tm == nil {
+		return fmt.Errorf("net.go: proxyproto.Listener.Accept does not build &Conn{Conn: c, readHeaderTimeout: ...}")
+	}
+	w.DefBool("t_accept_timeout_verbatim", strings.TrimSpace(tm[1]) == "l.ReadHeaderTimeout")
+	w.DefStr("t_accept_timeout_expr", strings.TrimSpace(tm[1]))
 	for _, name := range []string{"Conn.ReadFrom", "Conn.WriteTo"} {
 		fd, err := fn.NormFunc(name, g08Ref[name])
 		if err != nil {
